@@ -226,5 +226,3 @@ func ruleBuildTimeState() check.Rule {
 func isOperatorLike(m *model.Model, info *types.Info, fd *ast.FuncDecl) bool {
 	return fd.Name.IsExported() && fd.Recv == nil
 }
-
-
